@@ -123,7 +123,7 @@ structure Splitter where
   wide : (lo hi df : Nat) → Bool
 
 /-- `canDivide(from, to, divideFactor)`: `to-from >= uint64(divideFactor)-1` -/
-def canDivide (lo hi df : Nat) : Bool := decide ((hi + M - lo) % M ≥ (df + M - 1) % M)
+@[irreducible] def canDivide (lo hi df : Nat) : Bool := decide ((hi + M - lo) % M ≥ (df + M - 1) % M)
 
 def goSplit : Splitter := ⟨childRange, bucketOf, canDivide⟩
 
